@@ -92,8 +92,20 @@ def parseDec : Sx → Option (List (Bytes × Frame))
         let b ← asBytes b
         let d ← parseReq d
         pure (b, d)
+      | Sx.list [b, d, _] => do
+        let b ← asBytes b
+        let d ← parseReq d
+        pure (b, d)
       | _ => none
   | _ => none
+
+/-- the frames the harness's own envelope check rejects (third element of a `dec` entry) -/
+def parseEnvelopeBad : Sx → List Bytes
+  | .list (.atom "dec" :: es) =>
+    es.filterMap fun e => match e with
+      | Sx.list [b, _, .atom "envelope-bad"] => asBytes b
+      | _ => none
+  | _ => []
 
 def decOf (tbl : List (Bytes × Frame)) (msg : Bytes) : Frame :=
   match tbl.find? (fun e => e.1 == msg) with
@@ -268,7 +280,7 @@ def wirePred (prop : String) (caseLine obsLine : String) : String :=
           | "C03" => P_C03 cfg fs obs
           | "C04" => P_C04 cfg fs obs
           | "C05" => P_C05 cfg fs obs
-          | "C06" => P_C06 cfg fs total obs
+          | "C06" => P_C06 cfg fs total (parseEnvelopeBad decSx) obs
           | _ => some "unknown-property"
         match v with
         | none => "ok"
